@@ -205,6 +205,14 @@ def run(ctx, col: Collector):
                                 fins.append((o, f, w, g, pth, ch))
                             nxt_f.append((h, ren))
                 frontier = nxt_f
+            # ... and of the generator with every helper it calls read in place (a shared builder parameterised by a flag)
+            from .common import expanded as _exp_
+            from ..strctx import ANCHOR_HELPERS as _AH
+            try:
+                fx_ = _exp_(ctx, REFMOD, gname, keep_extra=tuple(sorted(_AH - {gname})))
+                texts += [x.value for x in ast.walk(fx_.node) if isinstance(x, ast.Constant) and isinstance(x.value, str)]
+            except Exception:       # pragma: no cover
+                pass
             closure_text = ' '.join(x.template for h in fins for x in h[5]) + ' ' + ' '.join(texts)
 
             def after(lit: str):
@@ -251,9 +259,16 @@ def run(ctx, col: Collector):
                               f'{gname}: after `{kw}` comes `{h[4]}` under {[t for t, _ in h[3]]}; expected {m}.{attr} under a test of that attribute',
                               node=h[1].node, file=h[1].fn.file)
             # the constraint placeholder stands before FOREIGN KEY
-            col.check('{c}' in closure_text and closure_text.index('{c}') < closure_text.index('FOREIGN KEY') if 'FOREIGN KEY' in closure_text else False,
-                      'C04-roles', f'{gname}:constraint-placeholder', 'the CONSTRAINT placeholder stands right before FOREIGN KEY',
-                      f'{gname} has no `{{c}}` placeholder before FOREIGN KEY', node=fi.node, file=fi.file)
+            import re as _re
+            all_texts = [x.template for h in fins for x in h[5]] + texts
+            adjacent = any(_re.search(r'\{c\}\s*FOREIGN KEY', t_) for t_ in all_texts)
+            cons_c = f'{gname}:constraint-placeholder'
+            if adjacent:
+                col.ok('C04-roles', cons_c, 'the CONSTRAINT placeholder stands right before FOREIGN KEY', node=fi.node, file=fi.file)
+            elif not any('{c}' in t_ for t_ in all_texts):
+                col.bad('C04-roles', cons_c, f'{gname} has no `{{c}}` placeholder before FOREIGN KEY', node=fi.node, file=fi.file)
+            else:
+                col.unk('C04-roles', cons_c, f'{gname} has a `{{c}}` placeholder, but not in one piece of text with FOREIGN KEY: its position is not established', node=fi.node, file=fi.file)
         # col_names keeps the order of the side
         cn = idx.func(REFMOD, 'col_names')
         p = [a.arg for a in cn.node.args.args][0]
